@@ -375,8 +375,13 @@ func (mw *msgWriter) addFiles(files []*File, isAttachment bool) {
 			}
 		}
 		if mw.depth == 0 {
-			for header, val := range file.Header {
-				mw.writeHeader(Header(header), val...)
+			keys := make([]string, 0, len(file.Header))
+			for header := range file.Header {
+				keys = append(keys, header)
+			}
+			sort.Strings(keys)
+			for _, header := range keys {
+				mw.writeHeader(Header(header), file.Header[header]...)
 			}
 			mw.writeString(SingleNewLine)
 		}
